@@ -52,7 +52,8 @@ _SHARED: dict = {}
 def make_registry(case):
     """fresh registry per case - or, for the reuse pass, ONE registry object per (kind, strict, custom) shared by all cases"""
     if case.get("_reuse"):
-        k = ("jws" if case["mode"] == "jws" else "7797" if case["mode"] == "jws7797" else "jwe", case["strict"], case["custom"])
+        k = ("jws" if case["mode"] == "jws" else "7797" if case["mode"] == "jws7797" else "jwe", case["strict"], case["custom"],
+             case.get("rcp", "single").endswith("_any"))
         if k not in _SHARED:
             _SHARED[k] = _make_registry(case, shared=True)
         return _SHARED[k]
@@ -76,7 +77,8 @@ def _make_registry(case, shared=False):
     names = [alg, enc, "DEF"]
     if shared:
         names = sorted({x for a, e in MODES.values() if e for x in (a, e)} | {"DEF"})
-    return JWERegistry(header_registry=hr, algorithms=names, strict_check_header=case["strict"])
+    return JWERegistry(header_registry=hr, algorithms=names, strict_check_header=case["strict"],
+                       verify_all_recipients=not case.get("rcp", "single").endswith("_any"))
 
 
 def place(case, prot: dict, unprot: dict, rec: dict, consume_generated: bool):
@@ -84,12 +86,13 @@ def place(case, prot: dict, unprot: dict, rec: dict, consume_generated: bool):
     p, c, pos = case["p"], case["c"], case["pos"]
     tgt = {"protected": prot, "unprotected": unprot, "recipient": rec}[pos]
     good = {"epk": "obj_ok", "iv": "str_ok", "tag": "str_ok", "p2s": "str_ok", "p2c": "int_pos"}
-    good_generated = consume_generated and good.get(p) == c and p in prot      # keep the value the forge generated
+    src = next((d for d in (prot, unprot, rec) if p in d), None)
+    good_generated = consume_generated and good.get(p) == c and src is not None      # keep the value the forge generated
     if c == "absent":
         for d in (prot, unprot, rec):
             d.pop(p, None)
     elif good_generated:
-        v = prot.pop(p)
+        v = src.pop(p)
         tgt[p] = v
     else:
         for d in (prot, unprot, rec):
@@ -153,9 +156,18 @@ def run_case(case) -> str:
                 out = jwe.encrypt_json(obj, None, registry=reg)
             return "ok" if out else "fail:empty"
 
+        rcp = case.get("rcp", "single")
+
         def mutate(p_, u_, rs_):
-            place(case, p_, u_, rs_[0], True)
-        parts = R.jwe_encrypt(prot, pt, [{"jwk": jwk, "where": "protected"}], mutate=mutate)
+            k = 1 if rcp.startswith("second") else 0
+            before = dict(p_)
+            place(case, p_, u_, rs_[k], True)
+            if rcp != "single":     # the other recipient keeps the good base members that moved out of the shared header
+                for n, v in before.items():
+                    if n not in p_:
+                        rs_[1 - k][n] = v
+        # two recipients: both usable with the caller's key, algorithm-generated members in the per-recipient headers
+        parts = R.jwe_encrypt(prot, pt, [{"jwk": jwk, "where": "protected"}] if rcp == "single" else [{"jwk": jwk}, {"jwk": jwk}], mutate=mutate)
         tok = R.jwe_compact(parts) if ser == "compact" else R.jwe_json(parts, flattened=(ser == "flattened"))
         from joserfc import jwe
         got = (jwe.decrypt_compact(tok, J.jkey(jwk), registry=reg) if ser == "compact" else jwe.decrypt_json(tok, J.jkey(jwk), registry=reg)).plaintext
@@ -190,7 +202,7 @@ def reuse_pass(cases, seed):
 
 def sig(case, obs):
     return (f"header:{case['mode']}.{case['op']}.{case['ser']} {case['p']}={case['c']}@{case['pos']} crit={case['crit']} "
-            f"strict={case['strict']} custom={case['custom']} -> {obs.split(':')[0]}")
+            f"strict={case['strict']} custom={case['custom']}{'' if case.get('rcp', 'single') == 'single' else ' rcp=' + case['rcp']} -> {obs.split(':')[0]}")
 
 
 def run(ctx: Ctx) -> None:
@@ -200,7 +212,7 @@ def run(ctx: Ctx) -> None:
     if thorough:
       ctx.tlc_many([("HeaderCheck", "HeaderCheck_dev_" + d, {"timeout": 600, "expect_violation": True})
                   for d in ("CritNotChecked", "StrictIgnoredOnConsume", "CheckMoreNotPassed", "RequiredCustomIgnored",
-                            "B64CritNotRequired", "BoolIsInt", "TypesUncheckedInJson")], par=7)
+                            "B64CritNotRequired", "BoolIsInt", "TypesUncheckedInJson", "StopAtFirstUsable")], par=8)
     cases = []
     for r in rs:
         seen = set()
